@@ -401,15 +401,17 @@ class PSY_C_API ParenthesizedDeclaratorSyntax final : public DeclaratorSyntax
     AST_NODE_1K(ParenthesizedDeclarator, Declarator);
 
 public:
+    const SpecifierListSyntax* attributes() const { return attrs_; }
     SyntaxToken openParenthesisToken() const { return tokenAtIndex(openParenTkIdx_); }
     const DeclaratorSyntax* innerDeclarator() const { return innerDecltor_; }
     SyntaxToken closeParenthesisToken() const { return tokenAtIndex(closeParenTkIdx_); }
 
 private:
+    SpecifierListSyntax* attrs_ = nullptr;
     LexedTokens::IndexType openParenTkIdx_ = LexedTokens::invalidIndex();
     DeclaratorSyntax* innerDecltor_ = nullptr;
     LexedTokens::IndexType closeParenTkIdx_ = LexedTokens::invalidIndex();
-    AST_CHILD_LST3(openParenTkIdx_, innerDecltor_, closeParenTkIdx_)
+    AST_CHILD_LST4(attrs_, openParenTkIdx_, innerDecltor_, closeParenTkIdx_)
 };
 
 /**
